@@ -52,9 +52,15 @@ use emit::{
     value::ToValue,
     Ctxt, Emitter, Frame, Props, SpanId, TraceId, Value,
 };
+use emit_traceparent::{Traceparent, TraceparentCtxt};
 use vcommon::*;
 
+/// The other `Ctxt` the workspace ships that keeps per-frame state of its own in a thread-local.
+type Tp = TraceparentCtxt<ThreadLocalCtxt>;
+
 const MAXI: usize = 4; // logical instances per program
+/// index of the (per-thread, shared by all traceparent instances) traceparent stack in `depths`
+const TPD: usize = MAXI;
 const SEEDED_PANIC: &str = "c03-seeded-panic";
 
 type Map = BTreeMap<String, String>;
@@ -282,11 +288,22 @@ struct Inst {
     pad: Pad<ThreadLocalCtxt>,
     opt_pad: Option<Pad<ThreadLocalCtxt>>,
     boxed: BoxDyn,
+    /// `Some` if this instance is `TraceparentCtxt<ThreadLocalCtxt>`: every handle then goes through these
+    tpx: Option<TpObjs>,
     slot: AmbientSlot,
     live: Arc<AtomicI64>,
     shared: bool,
     slot_kind: u8,
     place: Place,
+}
+
+struct TpObjs {
+    c: Tp,
+    opt: Option<Tp>,
+    assert: AssertInternal<Tp>,
+    pad: Pad<Tp>,
+    opt_pad: Option<Pad<Tp>>,
+    boxed: BoxDyn,
 }
 
 /// The only call sites of `ThreadLocalCtxt::new()` / `shared()` for program instances.
@@ -304,13 +321,22 @@ impl Inst {
         let live = Arc::new(AtomicI64::new(0));
         let pad = Pad { inner: tl, live: live.clone() };
         let slot = AmbientSlot::new();
-        let ok = match slot_kind {
-            0 => slot.init(Runtime::new().with_emitter(TlsRecorder).with_ctxt(tl)).is_some(),
-            1 => slot.init(Runtime::new().with_emitter(TlsRecorder).with_ctxt(pad.clone())).is_some(),
-            _ => slot.init(Runtime::new().with_emitter(TlsRecorder).with_ctxt(Some(pad.clone()))).is_some(),
+        let tpx = def.tp.then(|| {
+            let c = TraceparentCtxt::new(tl);
+            let pad = Pad { inner: c, live: live.clone() };
+            TpObjs { c, opt: Some(c), assert: AssertInternal(c), opt_pad: Some(pad.clone()), pad, boxed: Box::new(c) }
+        });
+        let ok = match (&tpx, slot_kind) {
+            (None, 0) => slot.init(Runtime::new().with_emitter(TlsRecorder).with_ctxt(tl)).is_some(),
+            (None, 1) => slot.init(Runtime::new().with_emitter(TlsRecorder).with_ctxt(pad.clone())).is_some(),
+            (None, _) => slot.init(Runtime::new().with_emitter(TlsRecorder).with_ctxt(Some(pad.clone()))).is_some(),
+            (Some(x), 0) => slot.init(Runtime::new().with_emitter(TlsRecorder).with_ctxt(x.c)).is_some(),
+            (Some(x), 1) => slot.init(Runtime::new().with_emitter(TlsRecorder).with_ctxt(x.pad.clone())).is_some(),
+            (Some(x), _) => slot.init(Runtime::new().with_emitter(TlsRecorder).with_ctxt(Some(x.pad.clone()))).is_some(),
         };
         assert!(ok, "fresh slot initialises");
         Inst {
+            tpx,
             tl,
             opt: Some(tl),
             assert: AssertInternal(tl),
@@ -325,7 +351,43 @@ impl Inst {
         }
     }
 
+    fn is_tp(&self) -> bool {
+        self.tpx.is_some()
+    }
+
+    fn fresh_box(&self) -> BoxDyn {
+        match &self.tpx {
+            Some(x) => Box::new(x.c),
+            None => Box::new(self.tl),
+        }
+    }
+
+    fn fresh_arc(&self) -> ArcDyn {
+        match &self.tpx {
+            Some(x) => Arc::new(x.c),
+            None => Arc::new(self.tl),
+        }
+    }
+
+    fn ref_box(&self) -> &BoxDyn {
+        match &self.tpx {
+            Some(x) => &x.boxed,
+            None => &self.boxed,
+        }
+    }
+
     fn dyn_of(&self, h: H) -> Dyn<'_> {
+        if let Some(x) = &self.tpx {
+            return match h {
+                H::DynTl => &x.c,
+                H::DynOpt => &x.opt,
+                H::DynAssert => &x.assert,
+                H::DynPad => &x.pad,
+                H::DynOptPad => &x.opt_pad,
+                H::DynBox => &x.boxed,
+                _ => *self.slot.get().ctxt(),
+            };
+        }
         match h {
             H::DynTl => &self.tl,
             H::DynOpt => &self.opt,
@@ -339,17 +401,26 @@ impl Inst {
 
     /// What `with_current` shows through handle `h`, on the calling thread.
     fn read(&self, h: H) -> Map {
+        if let Some(x) = &self.tpx {
+            match h {
+                H::Val => return x.c.with_current(|p| to_map(p)),
+                H::Ref => return (&x.c).with_current(|p| to_map(p)),
+                H::Opt => return x.opt.with_current(|p| to_map(p)),
+                H::Pad => return x.pad.with_current(|p| to_map(p)),
+                _ => {}
+            }
+        }
         match h {
             H::Val => self.tl.with_current(|p| to_map(p)),
             H::Ref => (&self.tl).with_current(|p| to_map(p)),
             H::DynTl | H::DynOpt | H::DynAssert | H::DynPad | H::DynOptPad | H::DynBox | H::Slot => {
                 self.dyn_of(h).with_current(|p| to_map(p))
             }
-            H::Boxed => (Box::new(self.tl) as BoxDyn).with_current(|p| to_map(p)),
-            H::Arcd => (Arc::new(self.tl) as ArcDyn).with_current(|p| to_map(p)),
+            H::Boxed => self.fresh_box().with_current(|p| to_map(p)),
+            H::Arcd => self.fresh_arc().with_current(|p| to_map(p)),
             H::Opt => self.opt.with_current(|p| to_map(p)),
             H::Pad => self.pad.with_current(|p| to_map(p)),
-            H::RefBox => (&self.boxed).with_current(|p| to_map(p)),
+            H::RefBox => self.ref_box().with_current(|p| to_map(p)),
         }
     }
 }
@@ -382,6 +453,10 @@ enum AnyFrame<'a> {
     O(Frame<Option<ThreadLocalCtxt>>),
     P(Frame<Pad<ThreadLocalCtxt>>),
     RB(Frame<&'a BoxDyn>),
+    TV(Frame<Tp>),
+    TR(Frame<&'a Tp>),
+    TO(Frame<Option<Tp>>),
+    TP(Frame<Pad<Tp>>),
 }
 
 macro_rules! each_frame {
@@ -395,6 +470,10 @@ macro_rules! each_frame {
             AnyFrame::O($f) => $body,
             AnyFrame::P($f) => $body,
             AnyFrame::RB($f) => $body,
+            AnyFrame::TV($f) => $body,
+            AnyFrame::TR($f) => $body,
+            AnyFrame::TO($f) => $body,
+            AnyFrame::TP($f) => $body,
         }
     };
 }
@@ -410,15 +489,24 @@ fn create<'a>(inst: &'a Inst, h: H, kind: FK, props: &[(String, Val)]) -> AnyFra
             })
         };
     }
+    if let Some(x) = &inst.tpx {
+        match h {
+            H::Val => return mk!(TV, x.c),
+            H::Ref => return mk!(TR, &x.c),
+            H::Opt => return mk!(TO, x.opt),
+            H::Pad => return mk!(TP, x.pad.clone()),
+            _ => {}
+        }
+    }
     match h {
         H::Val => mk!(V, inst.tl),
         H::Ref => mk!(R, &inst.tl),
         H::DynTl | H::DynOpt | H::DynAssert | H::DynPad | H::DynOptPad | H::DynBox | H::Slot => mk!(D, inst.dyn_of(h)),
-        H::Boxed => mk!(B, Box::new(inst.tl) as BoxDyn),
-        H::Arcd => mk!(A, Arc::new(inst.tl) as ArcDyn),
+        H::Boxed => mk!(B, inst.fresh_box()),
+        H::Arcd => mk!(A, inst.fresh_arc()),
         H::Opt => mk!(O, inst.opt),
         H::Pad => mk!(P, inst.pad.clone()),
-        H::RefBox => mk!(RB, &inst.boxed),
+        H::RefBox => mk!(RB, inst.ref_box()),
     }
 }
 
